@@ -1490,12 +1490,19 @@ rrul_fill_wly(echs_instant_t *restrict tgt, size_t nti, rrulsp_t rr)
 	     /* and stop at the end of the supported range */
 	     res < nti && y <= 2099U;
 	     ({
+#if defined ECHSE_VERIF
+		     verif_step_dn = VERIF_CURSOR_DAYNO(y, m, d);
+#endif	/* ECHSE_VERIF */
 		     d += rr->inter * 7U;
 		     while (d > maxd)
 #if defined ECHSE_VERIF
 		     __CPROVER_assigns(y, m, d, maxd)
 		     __CPROVER_loop_invariant(
-			     1U <= m && m <= 12U && 1U <= d && d <= 500U && y <= 2600U && y + d <= 2600U &&
+			     1U <= m && m <= 12U && 1U <= d && d <= 7100U && 1600U <= y && y <= 2600U && __CPROVER_loop_entry(y) <= 2099U &&
+			     /* every month carried takes at least 28 days off d */
+			     28U * (12U * y + m) + d <= 28U * (12U * __CPROVER_loop_entry(y) + __CPROVER_loop_entry(m)) + __CPROVER_loop_entry(d) &&
+			     /* the carry does not change the day the cursor denotes */
+			     VERIF_CURSOR_DAYNO(y, m, d) == VERIF_CURSOR_DAYNO(__CPROVER_loop_entry(y), __CPROVER_loop_entry(m), __CPROVER_loop_entry(d)) &&
 			     maxd == (unsigned int)S_MDAYS(y, m) &&
 			     ((y == __CPROVER_loop_entry(y) && m == __CPROVER_loop_entry(m) && d == __CPROVER_loop_entry(d)) ||
 			      y > __CPROVER_loop_entry(y) || (y == __CPROVER_loop_entry(y) && m > __CPROVER_loop_entry(m))))
@@ -1509,12 +1516,15 @@ rrul_fill_wly(echs_instant_t *restrict tgt, size_t nti, rrulsp_t rr)
 			     }
 			     maxd = echs_scale_ndim(srcsca, y, m);
 		     }
+#if defined ECHSE_VERIF
+		     __CPROVER_assert(VERIF_CURSOR_DAYNO(y, m, d) == verif_step_dn + 7 * (int)rr->inter, "WEEKLY: one step advances the cursor by exactly 7 * INTERVAL days");
+#endif	/* ECHSE_VERIF */
 	     }))
 #if defined ECHSE_VERIF
-	__CPROVER_assigns(y, m, d, maxd, res, __CPROVER_object_upto(tgt, 2U * GRP_CCH_OFF * sizeof(*tgt)))
+	__CPROVER_assigns(y, m, d, maxd, res, verif_step_dn, __CPROVER_object_upto(tgt, 2U * GRP_CCH_OFF * sizeof(*tgt)))
 	__CPROVER_loop_invariant(
 		1U <= m && m <= 12U && 1U <= d && d <= maxd && maxd == (unsigned int)S_MDAYS(y, m) &&
-		y <= 2600U && res <= nti &&
+		1600U <= y && y <= 2600U && res <= nti &&
 		VERIF_DLY_SLOT_OK(tgt, verif_k, res, proto, rr->until))
 	__CPROVER_decreases(2601 - (long)y, 12 - (long)m, 31 - (long)d)
 #endif	/* ECHSE_VERIF */
